@@ -53,7 +53,7 @@ impl Default for GenCfg {
         GenCfg {
             cover_unk: true,
             space_pre: false,
-            nul_in_sentence: false,
+            nul_in_sentence: true,
             max_ids: 4,
             cost_mag: 40,
             kind: Some(0),
